@@ -4,6 +4,7 @@
 package main
 
 import (
+	"io"
 	"errors"
 	"net"
 	"sync"
@@ -235,5 +236,146 @@ func init() {
 		ex := cc.exchange
 		cc.mu.Unlock()
 		return append(out, TW("final"), TB(rdC), TB(rdS), TIn(ex))
+	})
+}
+
+func init() {
+	opTimeout["c17d"] = 60 * time.Second
+	// c17d <n> <closer: client | server> <lag ms>   the DNS tunnel's two ends alone (real client connection, real listener, lossless
+	//   in-memory path): the closing end writes n octets and closes at once; the other end starts reading only after <lag> ms
+	//  -> got <n> diff <firstdiff|-1> eof <0/1> ms <elapsed>
+	register("c17d", func(a []Tok) []Tok {
+		n, closer, lag := int(a[0].I), a[1].W, time.Duration(a[2].I)*time.Millisecond
+		sc := &fakeServerComm{}
+		srv := sadns.NewServerDnsListener(testDomain, sc)
+		defer sc.Close()
+		cc := &scriptedClientComm{server: sc, from: addrN(1)}
+		cl, err := sadns.NewClientDnsConnection(testDomain, cc)
+		if err != nil {
+			return []Tok{TW("connect"), TW("err")}
+		}
+		acc := make(chan net.Conn, 1)
+		go func() {
+			c, err := srv.Accept()
+			if err == nil {
+				acc <- c
+			}
+		}()
+		if err := cl.Handshake(); err != nil {
+			return []Tok{TW("connect"), TW("err")}
+		}
+		var sconn net.Conn
+		select {
+		case sconn = <-acc:
+		case <-time.After(3 * time.Second):
+			return []Tok{TW("connect"), TW("noaccept")}
+		}
+		data := patBytes(n, n)
+		var from, to net.Conn = cl, sconn
+		if closer == "server" {
+			from, to = sconn, cl
+		}
+		t0 := time.Now()
+		go func() {
+			if n > 0 {
+				from.Write(data)
+			}
+			from.Close()
+		}()
+		time.Sleep(lag)
+		var got []byte
+		eof := false
+		buf := make([]byte, 65536)
+		deadline := time.Now().Add(12 * time.Second)
+		for time.Now().Before(deadline) {
+			to.SetReadDeadline(time.Now().Add(500 * time.Millisecond))
+			k, err := to.Read(buf)
+			got = append(got, buf[:k]...)
+			if err == io.EOF {
+				eof = true
+				break
+			}
+			if err != nil && k == 0 {
+				time.Sleep(2 * time.Millisecond)
+			}
+		}
+		if closer == "server" {
+			cl.Close()
+		}
+		return []Tok{TW("got"), TIn(len(got)), TW("diff"), TIn(firstDiff(got, data)), TW("eof"), TBool(eof), TW("ms"), TIn(int(time.Since(t0) / time.Millisecond))}
+	})
+}
+
+func init() {
+	opTimeout["c14d"] = 120 * time.Second
+	// c14d <n> <mode: client-closes | server-closes>   n DNS tunnel sessions one after the other over one listener (real client connection,
+	//   lossless in-memory path), each with a reader blocked in Read on both ends when the session is closed; twice, to separate constant
+	//   from linear growth  -> g <base> <after n> <after 2n> fd 0 0 cpu 0 ok <sessions whose two readers returned>
+	register("c14d", func(a []Tok) []Tok {
+		n, mode := int(a[0].I), a[1].W
+		sc := &fakeServerComm{}
+		srv := sadns.NewServerDnsListener(testDomain, sc)
+		defer sc.Close()
+		acc := make(chan net.Conn, 4)
+		go func() {
+			for {
+				c, err := srv.Accept()
+				if err != nil {
+					return
+				}
+				acc <- c
+			}
+		}()
+		okc := 0
+		one := func(i int) {
+			cc := &scriptedClientComm{server: sc, from: addrN(int64(1 + i%40))}
+			cl, err := sadns.NewClientDnsConnection(testDomain, cc)
+			if err != nil {
+				return
+			}
+			if err := cl.Handshake(); err != nil {
+				return
+			}
+			var sconn net.Conn
+			select {
+			case sconn = <-acc:
+			case <-time.After(3 * time.Second):
+				return
+			}
+			cdone, sdone := make(chan struct{}), make(chan struct{})
+			go func() { buf := make([]byte, 100); for { if _, err := cl.Read(buf); err != nil { close(cdone); return } } }()
+			go func() { buf := make([]byte, 100); for { if _, err := sconn.Read(buf); err != nil { close(sdone); return } } }()
+			time.Sleep(5 * time.Millisecond)
+			if mode == "server-closes" {
+				sconn.Close()
+			} else {
+				cl.Close()
+			}
+			both := 0
+			for _, ch := range []chan struct{}{cdone, sdone} {
+				select {
+				case <-ch:
+					both++
+				case <-time.After(3 * time.Second):
+				}
+			}
+			if both == 2 {
+				okc++
+			}
+			cl.Close()
+			sconn.Close()
+		}
+		one(-1)
+		okc = 0
+		g0 := settleGoroutines()
+		for i := 0; i < n; i++ {
+			one(i)
+		}
+		g1 := settleGoroutines()
+		for i := 0; i < n; i++ {
+			one(n + i)
+		}
+		g2 := settleGoroutines()
+		return []Tok{TW("g"), TIn(g0), TIn(g1), TIn(g2), TW("fd"), TI(0), TI(0), TW("cpu"), TI(0), TW("ok"), TIn(okc)}
 	})
 }
